@@ -276,8 +276,10 @@ def elitism_events(R, n_cases, seed0):
         rs = NativeRandomSource(seed0 + c)
         g = search_grammar()
         rep = TreeBasedRepresentation(g, MaxDepthDecider(rs, g, 3))
-        vals = [R.choice([1, 2, 3]) for _ in range(12)]   # many ties
-        problem = SingleObjectiveProblem(lambda p, vals=vals: float(vals[prog_value(p) % 12]), minimize=minimise)
+        vals = [R.choice([0, 1, 2, 3]) for _ in range(12)]   # many ties, and the value 0
+        import numpy as _np
+        conv = [float, _np.uint8, _np.int64, _np.float32, int, _np.uint64][(c // 2) % 6]   # fitness functions often return numpy scalars
+        problem = SingleObjectiveProblem(lambda p, vals=vals, conv=conv: conv(vals[prog_value(p) % 12]), minimize=minimise)
         ev_ = SequentialEvaluator()
         n = R.randint(1, 6)
         pop = [Individual(rep.create_genotype(rs), rep) for _ in range(n)]
@@ -385,6 +387,44 @@ def elitism_runs(R, n_runs, seed0):
         if exc:
             evs.append({"e": "runfail", "exc": exc})
         out.append((f"eliterun/{r}/{name}", evs, {"k": "eliterun", "name": name, "n": n, "exclusive": name.startswith("xpar")}))
+    return out
+
+
+def simplegp_elite_runs(R, n_runs, seed0):
+    """runs started through the repository's simple API: the number of elite slots is what the CALLER configured
+    (`elitism=`), not something read back from the step it built"""
+    from geml.simplegp import SimpleGP
+    out = []
+    for r in range(n_runs):
+        n = R.choice([6, 12, 20])
+        elitism, novelty = [(1, 0), (3, 0), (2, 2), (1, 3), (n // 2, 0)][r % 5]
+        minimise = bool((r // 5) % 2)
+        obs = FitObserver()
+        exc = ""
+        try:
+            sgp = SimpleGP(fit1, search_grammar(), minimize=minimise, max_depth=3, max_time=10 ** 9, max_evaluations=10 ** 9,
+                           seed=seed0 + r, population_size=n, elitism=elitism, novelty=novelty,
+                           mutation_probability=0.9, crossover_probability=0.5)
+            sgp.gp.tracker.recorders.append(obs)
+            gens = 6
+
+            class GenBudget(EvaluationBudget):
+                def __init__(self):
+                    self.checks = 0
+
+                def is_done(self, tr):
+                    self.checks += 1
+                    return self.checks > gens
+            sgp.gp.budget = GenBudget()
+            with time_limit(60):
+                sgp.search()
+        except Exception as e:
+            exc = exc_name(e)
+        evs = [{"e": "genfit", "g": gi, "fits": obs.gens[gi], "elite_slots": elitism, "elite_in": n} for gi in sorted(obs.gens)]
+        if exc:
+            evs.append({"e": "runfail", "exc": exc})
+        out.append((f"eliterun/simplegp/{r}/{elitism}-{novelty}", evs,
+                    {"k": "eliterun", "name": f"simplegp-{elitism}-{novelty}", "n": n, "exclusive": False}))
     return out
 
 
@@ -610,6 +650,9 @@ def main():
             batch.trace(tid, ev, cfg)
             nev += len(ev)
         for tid, ev, cfg in elitism_runs(R, 30 if quick else 600, 300):
+            batch.trace(tid, ev, cfg)
+            nev += len(ev)
+        for tid, ev, cfg in simplegp_elite_runs(R, 10 if quick else 100, 900):
             batch.trace(tid, ev, cfg)
             nev += len(ev)
     elif a.prop == "C17":
